@@ -1,8 +1,9 @@
 #!/bin/bash
 # tools/reverify_seeds.sh [seed-id ...]  -- re-runs the repository's own tests against each kept seeded change WITH the scratch worktree's src first on
 # the path (the pinned command alone imports the installed copy, /repo/src, and would not see a change made in a worktree):
-#   tests/earthkit_workflows (the 133 pinned tests) must pass; tests/cascade (not part of the pinned baseline: shadowed there) is compared with the
-#   clean tree's result ("2 failed, 10 passed" expected, see tools/cascade_tests.sh). Records both in meta.json under confirmed.tests_against_worktree_src.
+#   tests/earthkit_workflows (the 133 pinned tests) must pass; of tests/cascade (not part of the pinned baseline: shadowed there) the files that
+#   do not start real clusters (low, scheduler, shm, executor/test_runner.py: 8 passed on the clean tree) are run for changes under src/cascade --
+#   the cluster-starting ones use fixed ports and hang or fail in this sandbox regardless of the change. Recorded in meta.json.
 cd /verif
 IDS="$@"; [ -z "$IDS" ] && IDS=$(ls seeded)
 for id in $IDS; do
@@ -10,10 +11,10 @@ for id in $IDS; do
   TMP=$(mktemp -d /tmp/verif-rv-XXXX); WT=$TMP/wt
   git -C /repo worktree add -q --detach $WT HEAD
   if git -C $WT apply $D/patch.diff 2>/dev/null; then
-    EK=$(cd $WT && PYTHONPATH=$WT/src timeout 900 /venv/bin/python -m pytest tests/earthkit_workflows -q -p no:cacheprovider --timeout=900 2>&1 | grep -E "^=+ .*(passed|failed|error)" | tail -1)
+    EK=$(cd $WT && PYTHONPATH=$WT/src timeout 900 /venv/bin/python -m pytest tests/earthkit_workflows -q -p no:cacheprovider --timeout=900 --continue-on-collection-errors 2>&1 | grep -E "^=+ .*(passed|failed|error)" | tail -1)
     CA="not run (change does not touch src/cascade)"
     if grep -q "^diff --git a/src/cascade" $D/patch.diff; then
-      CA=$(cd $WT && PYTHONPATH=$WT/src timeout 900 /venv/bin/python -m pytest tests/cascade -q -p no:cacheprovider --timeout=300 2>&1 | grep -E "^=+ .*(passed|failed|error)" | tail -1)
+      CA=$(cd $WT && PYTHONPATH=$WT/src timeout 600 /venv/bin/python -m pytest tests/cascade/low tests/cascade/scheduler tests/cascade/shm tests/cascade/executor/test_runner.py -q -p no:cacheprovider --timeout=120 2>&1 | grep -E "^=+ .*(passed|failed|error)" | tail -1)
     fi
   else
     EK="patch does not apply"; CA=""
@@ -23,7 +24,7 @@ for id in $IDS; do
   /venv/bin/python - "$D/meta.json" "$EK" "$CA" <<'PY'
 import json,sys
 p,ek,ca=sys.argv[1:4]
-m=json.load(open(p)); m.setdefault("confirmed",{})["tests_against_worktree_src"]={"tests/earthkit_workflows":ek.strip("= "),"tests/cascade (clean tree: 2 failed, 10 passed)":ca.strip("= ")}
+m=json.load(open(p)); m.setdefault("confirmed",{})["tests_against_worktree_src"]={"tests/earthkit_workflows":ek.strip("= "),"tests/cascade low+scheduler+shm+test_runner (clean tree: 8 passed)":ca.strip("= ")}
 json.dump(m,open(p,"w"),indent=1)
 PY
 done
